@@ -35,6 +35,7 @@ func cmdFn(args []string) {
 	key := fs.String("key", "", "function key substring")
 	dump := fs.String("dump", "", "dump SMT script of obligation whose name contains this")
 	timeout := fs.Int("timeout", 10, "solver timeout (s)")
+	prop := fs.String("prop", "", "verify as when checking this property (clause scoping)")
 	fs.Parse(args)
 	t0 := time.Now()
 	p, err := loadProg(*repo, *cdir)
@@ -42,6 +43,7 @@ func cmdFn(args []string) {
 		fmt.Fprintln(os.Stderr, "load:", err)
 		os.Exit(2)
 	}
+	p.curProp = *prop
 	fmt.Fprintf(os.Stderr, "loaded in %.1fs, %d contracts\n", time.Since(t0).Seconds(), len(p.contracts.ByKey))
 	var results []*FnResult
 	for _, k := range p.contracts.Order {
@@ -120,4 +122,3 @@ func filterModel(model string, vars []string) string {
 	}
 	return strings.Join(out, "\n")
 }
-
